@@ -231,6 +231,9 @@ def _pure(e) -> bool:
         return all(_pure(v) for v in e.values)
     if isinstance(e, ast.UnaryOp) and isinstance(e.op, ast.Not):
         return _pure(e.operand)
+    if isinstance(e, ast.Compare) and len(e.ops) == 1 and isinstance(e.ops[0], (ast.Is, ast.IsNot)) \
+            and isinstance(e.comparators[0], ast.Constant) and e.comparators[0].value is None:
+        return _pure(e.left)            # round 7: `x is [not] None` (identity: no user code runs)
     return False
 
 
@@ -470,6 +473,10 @@ class Tr:
                 return ("lit", ("str", v))
             if v is None:
                 return ("lit", ("none",))
+            if self.orch and isinstance(v, float):
+                # round 7: a float literal is the external CONSTANT `float:<repr>` (PyLite has no floats; the theorem says what
+                # it stands for, e.g. `0.0` = 0 units)
+                return ("ext", "float:" + repr(v), [])
             raise TranslationError(f"unsupported constant {v!r}")
         if isinstance(e, ast.JoinedStr):
             return ("lit", ("str", OPAQUE_STR))
